@@ -107,7 +107,7 @@ PROP = {
     "level_text": "Machine-checked (Lean 4) theorems over executable models of the four relay components composed with the Router's settle rule; "
                   "models tied to the current source by generated deep embeddings with equality theorems, structural facts and differential "
                   "execution of the real components.",
-    "level_note": "Proved about the models, not about the Go code; the tie is checked on every run. encoding/json round-trip (valid UTF-8), "
+    "level_note": "The settle rule applied to the relay handlers' errors is derived from the handleMessage model of C02 (Props/C17Router.lean) whose tie is re-proved in this check. Proved about the models, not about the Go code; the tie is checked on every run. encoding/json round-trip (valid UTF-8), "
                   "GoChannel delivery and the Router's settle rule are assumed/modelled here and verified elsewhere (C16, C04, C02). "
                   "requeuer_counter_partial excludes prior counter = MaxInt64 (open finding retries=MaxInt64).",
     "technique": "Lean 4 theorems over a hand-written executable model + structural facts + differential correspondence check against the Go code",
